@@ -336,6 +336,34 @@ class Fragments(SubCheck):
         out.outcome = (status, len(ref.segments), ref.ok)
         if not ref.ok:
             out.nontrivial.append(d)
+        # the other entry points that take path data: appending to a path that has a current point must behave exactly
+        # like parsing the concatenation (same outcome, same retained segments, render up to the error)
+        svg = self.svg
+        head = "M3,-2 L1,1"
+        if not d.lstrip(" ,\t\n\r\x0c")[:1] in tuple(pc.LETTERS):
+            return out      # a piece that starts inside a command (with a number) is not a continuation at a command boundary
+        want = parse_result(svg, head + " " + d)
+        for entry in ("+=", "+", "parse"):
+            p = svg.Path(head)
+            try:
+                if entry == "+=":
+                    p += d
+                elif entry == "+":
+                    q = p + d
+                    p = q
+                else:
+                    p.parse(d)
+                st = "ok"
+            except ValueError:
+                st = "ValueError"
+            except Exception as e:  # noqa
+                st = type(e).__name__
+            got = (st, [repr(x) for x in p])
+            if entry == "+" and st != "ok":
+                continue        # a raising binary + has no result object to inspect
+            if got != want:
+                out.fail("Path(%r) %s %r gives %r, Path().parse of the concatenation gives %r" % (head, entry, d, got, want),
+                         list(want), list(got), kind="entry-point", entry=entry, d=d, fault="fragment")
         return out
 
     unit_test = Faults1.unit_test
